@@ -1436,6 +1436,10 @@ class Acceptor:
             head = elig[0]
             nxt = self.peek()
             cand = self.next_pending(root, nxt) if nxt is not None else None
+            if cand is None and nxt is not None:
+                # the first visible record may belong to an occurrence pending in an active submachine: it is
+                # dispatched inside the step of the root's occurrence that is forwarded there (nested-first)
+                cand = self.infer_nested(root, nxt)
             if cand is None:
                 if not any(o in root.queue for o in elig):
                     return          # only occurrences deferred in the current cycle are left
